@@ -37,6 +37,12 @@ def copy_array(case, d):
     src = darr.asarray(sp, val, accessmode='r+', metadata=case.get('metadata'))
     dtype = case.get('dtype')
     ref = np.asarray(val).astype(dtype) if dtype else np.asarray(val)
+    if case.get('metadata') and isinstance(case['metadata'].get('a'), dict):
+        # a value READ from the metadata is changed in place by the caller (nothing is written): the copy
+        # must carry what is stored, not the caller's object
+        got = src.metadata['a']
+        got['b'].append('changed by the caller')
+        got['new'] = 1
     res = attempt(lambda: (src.copy(cp, dtype=dtype, chunklen=case.get('chunklen'),
                                     accessmode='r+'), None)[1])
     out = dict(res=res[:2], ref=dict(shape=list(ref.shape), dtype=dtype_info(ref.dtype),
@@ -48,7 +54,7 @@ def copy_array(case, d):
     c = darr.Array(cp, accessmode='r+')
     out['live'] = impl_arr.guarded_view(lambda: c)
     out['files'] = impl_arr.read_files(cp)
-    out['meta_src'] = dict(src.metadata); out['meta_cpy'] = dict(c.metadata)
+    out['meta_src'] = dict(darr.Array(sp).metadata); out['meta_cpy'] = dict(c.metadata)
     # independence
     indep = []
     for side, how in case.get('mutations', []):
@@ -121,7 +127,7 @@ def archive(case, d):
         open(target, 'wb').write(b'previous archive')
         pre = b'previous archive'
     if case.get('userfiles'):
-        for nm, txt in (('.hidden', 'h'), ('notes.txt~', 'n'), ('._x', 'x')):
+        for nm, txt in (('.hidden', 'h'), ('notes.txt~', 'n'), ('._x', 'x'), ('long_' + 'n' * 130 + '.txt', 'l')):
             with a.datadir.open_file(nm, 'w') as fh:
                 fh.write(txt)
         # ... an empty directory and a dangling symbolic link are part of the directory too
